@@ -679,13 +679,13 @@ func checkCallProtocol(cs *clauseSet, l *Ledger) {
 				return
 			}
 			n++
-			if fn != cs.ii.Eval {
+			if fn != cs.ii.Eval && !cs.p.OwnedBy(fn, cs.p.FuncKey(cs.ii.Eval)) {
 				l.Violate("C04/S3-who-invokes", cs.p.FuncKey(fn)+"#invoke", cs.p.InstrPos(in), "a Callable is invoked outside the call clause of eval: the arity protocol (and the index safety of arguments[k]) does not cover this site")
 			}
 		})
 	}
 	if n == 1 {
-		l.Discharge("C04/S3-who-invokes", "Callable.Call", "", "the only invocation site is the call clause", true)
+		l.Discharge("C04/S3-who-invokes", "Callable.Call", "", "the only invocation site is the call clause (or a helper only it calls, explored as part of it)", true)
 	} else if n == 0 {
 		l.Violate("C04/S3-who-invokes", "Callable.Call", "", "no invocation site found")
 	}
